@@ -7,6 +7,7 @@ import (
 	"errors"
 	"fmt"
 	"io"
+	"sort"
 
 	"verifsim/tape"
 )
@@ -54,6 +55,7 @@ type SimReader struct {
 	dead     error
 	zeroDone map[int]int
 	fdone    []bool
+	bidx     int // cursor into plan.Boundaries
 
 	Calls      int
 	ZeroReads  int
@@ -69,6 +71,10 @@ func NewReader(data []byte, plan ReaderPlan) *SimReader {
 	d := data
 	if plan.Cut >= 0 && plan.Cut < len(d) {
 		d = d[:plan.Cut]
+	}
+	if !sort.IntsAreSorted(plan.Boundaries) {
+		plan.Boundaries = append([]int(nil), plan.Boundaries...)
+		sort.Ints(plan.Boundaries)
 	}
 	return &SimReader{data: d, plan: plan, FiredKinds: map[string]int{}, zeroDone: map[int]int{}, fdone: make([]bool, len(plan.Faults))}
 }
@@ -150,10 +156,14 @@ func (r *SimReader) Read(p []byte) (int, error) {
 	if n > remaining {
 		n = remaining
 	}
-	for _, b := range r.plan.Boundaries {
-		if b > r.pos && b < r.pos+n {
+	// (boundaries are sorted: keep a cursor instead of scanning from the start,
+	// so that the reader's own cost stays linear for documents of megabytes)
+	for r.bidx < len(r.plan.Boundaries) && r.plan.Boundaries[r.bidx] <= r.pos {
+		r.bidx++
+	}
+	if r.bidx < len(r.plan.Boundaries) {
+		if b := r.plan.Boundaries[r.bidx]; b < r.pos+n {
 			n = b - r.pos
-			break
 		}
 	}
 	hit := false
